@@ -178,3 +178,22 @@ Definition run_conv (ty : cty) (input : list N) : string :=
   | Val (IErr e :: _) => "L" ++ show_Z e
   | Val (IOk t :: _) => if is_data t then conv_show ty t else "N"
   end.
+
+(* ---- kind fmt (C09): response text of a value and its round trip through lexer + conversion ---- *)
+Definition run_fmt (d : rdata) (back : option cty) : string :=
+  match response_text d with
+  | (_, Some e) => "E" ++ show_Z e ++ " -"
+  | (text, None) =>
+    show_bytes text ++ " " ++
+    match back with
+    | None => "-"
+    | Some ty =>
+      match tokenize_params text with
+      | Panic s => "PANIC " ++ s
+      | Val [] => "-"
+      | Val (IErr e :: _) => "L" ++ show_Z e
+      | Val (IOk t :: rest) =>
+        (if is_data t then conv_show ty t else "N") ++ (match rest with [] => "" | _ => "+MORE" end)
+      end
+    end
+  end.
